@@ -153,6 +153,10 @@ def make_plan(seed: int, tier: str, index: int) -> dict[str, Any]:
     s = rng.stream(seed, "sched")
     doc = gen.gen_doc(g, max_tracks=4, small=g.random() < 0.5)
     doc["unknown"] = []
+    if g.random() < 0.1:
+        gen.add_far_events(g, doc)
+    if index % 40 == 17:
+        gen.add_many_notes(g, doc, g.choice([520, 700]))
     text = gen.render(doc)
     if doc["tracks"] and g.random() < 0.3:
         # unusual but accepted input: records of one instrument section out of tick order (the
